@@ -60,7 +60,8 @@ def run_aux(c, binary, sub, arg, name, env=None):
     nev = sum(len(x[1]) for x in parts)
     acc, rej, st = vlib.validate_cases(parts, c.prop + "-" + name, chunk_events=3000)
     log("[conform] %s: %d records, run %.1fs, validate %.1fs, %d rejected" % (name, nev, time.time() - t0, time.time() - t0, len(rej)))
-    c.cov["traces_validated_against_impl"] += len(acc)
+    accepted = set(acc)
+    c.cov["traces_validated_against_impl"] += sum(len(x[1]) - 2 for x in parts if x[0] in accepted)   # records judged and accepted
     c.cov["trace_events"] += nev
     c.cov["trace_states"] += st
     c.cov["evaluations"] += nev
